@@ -53,6 +53,7 @@ def run(ck):
                      "written-share-number-held-unexpected-version",
                      "publish-waits-for-silent-server", "server-error-on-write", "server-disconnect-on-write",
                      "late-answer", "error-after-write", "scenario-create", "scenario-update", "in-place-update",
+                     "writer-defaults-differ-from-file", "stale-duplicate-share-present",
                      "sdmf", "mdmf")
 
 
@@ -70,21 +71,47 @@ def gen_case(rng, tier):
     nservers = rng.choice([1, 2, 3, n, n, n + 1, n + 2, 12, rng.randint(1, 12)])
     nservers = max(1, min(12, nservers))
     scenario = rng.choice(["create"] * 4 + ["update"] * 6 + ["stale-map"] * 2 + ["unknown-share"] * 2 +
-                          ["homeless-collision"] * 2)
+                          ["homeless-collision"] * 2 + ["stale-duplicate"] * 2)
     if scenario == "homeless-collision":
         nservers = min(nservers, n)          # every server holds a share (needed to plant a foreign one on any of them)
+    if scenario == "stale-duplicate":
+        n = rng.choice([2, 3, 4, 5, 6])
+        k = rng.randint(1, n)
+        nservers = n + rng.choice([0, 1, 2])
     fmt = rng.choice(["SDMF", "MDMF"])
     op = "create"
     if scenario == "update":
         op = rng.choice(["overwrite", "overwrite", "modify", "upload", "v-overwrite", "update", "update"])
     elif scenario in ("stale-map", "unknown-share", "homeless-collision"):
         op = "upload"
+    elif scenario == "stale-duplicate":
+        op, fmt = "update", "MDMF"
     big = tier != "quick" and rng.random() < .08
     size = rng.choice([1, 2, 55, 56, 100, 1000, 3000]) if not big else rng.choice([131072, 131073, 300000])
     ro = sorted(rng.sample(range(nservers), rng.randint(0, nservers))) if rng.random() < .15 else []
     full = sorted(rng.sample(range(nservers), rng.randint(0, nservers))) if rng.random() < .1 else []
+    if scenario == "stale-duplicate":
+        size = rng.choice([131073, 150000, 262145, 300000])      # several segments: an in-place update rewrites only some
+    # the client that performs the operation may have other default encoding parameters than the file (tahoe.cfg changed
+    # since the file was made, or another gateway): it is then a fresh node object that has never downloaded the file
+    writer_kn = None
+    if scenario == "update" and rng.random() < .35:
+        n2 = rng.choice([1, 2, 3, 4, 5, 6, 8, 10])
+        k2 = rng.randint(1, n2)
+        if rng.random() < .6:
+            n2, k2 = n, rng.randint(1, n)          # same N, other k
+        if (k2, n2) != (k, n):
+            writer_kn = (k2, n2)
+            if op == "update" and rng.random() < .8:
+                size = rng.choice([131073, 150000, 262145, 300000])   # several segments: only some are re-encoded
     directed = None
-    if scenario == "update" and op in ("update", "modify") and rng.random() < .6:
+    if scenario == "update" and n >= 2 and rng.random() < .12:
+        # fault-free in-place update of a multi-segment MDMF file by a client with another default k
+        directed, op, fmt = "writer-kn", "update", "MDMF"
+        k = rng.randint(1, n)
+        writer_kn = (rng.choice([x for x in range(1, n + 1) if x != k]), n)
+        size = rng.choice([131073, 150000, 262145, 300000])
+    elif scenario == "update" and op in ("update", "modify") and rng.random() < .6:
         # one acknowledgement lost after the write was applied (the writer is then surprised by its own share and
         # modify()/SDMF update() retry), optionally with another server that keeps the old version
         directed = rng.choice(["lost-ack", "lost-ack+failing-server", "lost-ack+failing-server"])
@@ -92,7 +119,7 @@ def gen_case(rng, tier):
         if directed != "lost-ack":
             k = rng.randint(1, max(1, n // nservers))      # the old version stays recoverable on the failing server
     return dict(scenario=scenario, fmt=fmt, k=k, n=n, nservers=nservers, op=op, size=size, readonly=ro, full=full,
-                directed=directed,
+                directed=directed, writer_kn=writer_kn,
                 profile=rng.choice(["fifo", "per-server-fifo", "free"]),
                 target=rng.choice(["k-1", "k", "k", "k+1", "0", "all", "random", "random"]))
 
@@ -115,6 +142,21 @@ def carried_version(datav):
     if not all(have):
         return None
     return parse_header(buf)
+
+
+def carried_kn(datav):
+    """(k, N) of the version a list of write vectors puts into a share header, if they cover those two bytes."""
+    v = carried_version(datav)
+    if v is None:
+        return None
+    at = 41 if v[0] == 1 else 57           # MDMF: >BQ32s BB..., SDMF: >BQ32s16s BB...
+    buf, have = bytearray(2), bytearray(2)
+    for (off, data) in datav:
+        for j in (0, 1):
+            if off <= at + j < off + len(data):
+                buf[j] = data[at + j - off]
+                have[j] = 1
+    return (buf[0], buf[1]) if all(have) else None
 
 
 class Case(object):
@@ -166,6 +208,8 @@ class Case(object):
         tgt = {"k-1": k - 1, "k": k, "k+1": k + 1, "0": 0, "all": n, "random": rng.randint(0, n)}[case["target"]]
         tgt = max(0, min(n, tgt))
         faulty = []
+        if case.get("directed") == "writer-kn":
+            return
         if case.get("directed") and holders:
             multi = [j for j in order if len(holders.get(j, ())) >= 2] or [j for j in order if j in holders]
             a = multi[0]
@@ -275,10 +319,16 @@ class Case(object):
         holders = {}
         for (vs, shnum, path) in g.find_shares(si):
             holders.setdefault(vs.index, set()).add(shnum)
-        if rng.random() < .5:
+        if case.get("writer_kn"):
+            ck.hit("writer-defaults-differ-from-file")
+            c = self.g.make_client(k=case["writer_kn"][0], happy=1, n=case["writer_kn"][1])
+            node = c.create_node_from_uri(cap)
+        elif rng.random() < .5:
             c = self.client()
             node = c.create_node_from_uri(cap)
         op = case["op"]
+        if case["scenario"] == "stale-duplicate":
+            return self.stale_duplicate(c, node, cap, si, data)
         new = rng.randbytes(rng.choice([1, 57, 100, 1000, 2500, case["size"]]))
         if case["scenario"] == "update":
             ck.hit("scenario-update")
@@ -361,6 +411,64 @@ class Case(object):
         st, res = self.wait(node.upload(MutableData(new), smap))
         self.judge(n0, st, res, new, cap, "upload-stale")
 
+    def stale_duplicate(self, c, node, cap, si, data):
+        """A share number exists twice: its old server missed one overwrite (the share was re-created elsewhere) and is
+        back with the previous version.  Then an in-place update is made while the server with the current copy fails."""
+        from allmydata.mutable.publish import MutableData
+        ck, g, rng, case = self.ck, self.g, self.rng, self.case
+        k = case["k"]
+        ck.hit("scenario-stale-duplicate")
+        shares = g.find_shares(si)
+        svs, a, _ = rng.choice(shares)
+        svs.disconnect()
+        mid = rng.randbytes(len(data))
+        st, r = self.wait(node.overwrite(MutableData(mid)))
+        svs.start()
+        if st != "ok":
+            ck.observe("honest-overwrite-failed")
+            return
+        where = {}
+        for (vs, shnum, path) in g.find_shares(si):
+            where.setdefault(shnum, []).append(vs)
+        cur = [vs for vs in where.get(a, []) if vs is not svs]
+        if not cur:
+            ck.skip("share-was-not-re-created-elsewhere")
+            return
+        ck.hit("stale-duplicate-share-present")
+        if rng.random() < .5:
+            node = self.client().create_node_from_uri(cap)
+        st, best = self.wait(node.get_best_mutable_version())
+        if st != "ok":
+            ck.observe("honest-mapupdate-failed")
+            return
+        mode = rng.choice(["current-copy-fails", "current-copy-fails", "current-copy-fails+only-k", "no-fault"])
+        self.faultdesc["duplicate"] = dict(shnum=a, stale_on=svs.name, current_on=[vs.name for vs in cur], mode=mode)
+        if mode != "no-fault":
+            for vs in cur:
+                vs.add_fault("raise", method=W)
+                self.faultdesc[vs.name] = dict(action="raise")
+            if mode.endswith("only-k"):
+                # besides the stale copy, keep servers for k-1 other share numbers only
+                keep, have = set([svs.index]), set([a])
+                for shnum in sorted(where, key=lambda x: rng.random()):
+                    if len(have) >= k:
+                        break
+                    if shnum not in have:
+                        keep.add(where[shnum][0].index)
+                        have |= set(sh for sh, vss in where.items() if where[shnum][0] in vss)
+                for vs in g.servers:
+                    if vs.index not in keep and vs not in cur:
+                        vs.add_fault("raise", method=W)
+                        self.faultdesc[vs.name] = dict(action="raise")
+        off = rng.choice([0, 1, 100, len(mid) // 2, 131072, len(mid) - 1])
+        off = min(off, len(mid) - 1)
+        x = rng.randbytes(rng.choice([1, 7, 100]))
+        new = mid[:off] + x + mid[off + len(x):]
+        ck.hit("in-place-update")
+        n0 = len(g.calls)
+        st, res = self.wait(best.update(MutableData(x), off))
+        self.judge(n0, st, res, new, cap, "update", prev=mid)
+
     def homeless_collision(self, c, node, cap, si, new):
         """A share is lost, the writer maps the grid (that share number is now homeless), then a share with that number -
         of a version that is neither the one the writer replaces nor the one it writes - turns up on the very server the
@@ -426,6 +534,11 @@ class Case(object):
                 if v is not None:
                     vers[v] = vers.get(v, 0) + 1
         V = max(vers, key=lambda v: (v[1], vers[v])) if vers else None
+        for r in recs:
+            for shnum, (testv, datav, newlen) in r["args"][2].items():
+                kn = carried_kn(datav)
+                if kn is not None and r["_carried"].get(shnum) == V and kn[0] >= 1:
+                    k = kn[0]            # "at least k": the k the new version announces in its signed header
         if st == "ok" and not recs and prev is not None and prev == content:
             # the operation changed nothing and published nothing (e.g. an update writing the bytes already there)
             ck.skip("operation-without-publish")
@@ -654,6 +767,21 @@ class Case(object):
                          "(%d bytes, read from the acknowledging servers) is not the old content with the new bytes written "
                          "at the offset (%d bytes expected, first difference at byte %s)"
                          % (nversions, V[1], len(got), len(content), firstdiff(got, content)), w)
+        elif (st != "ok" or got != content) and opname == "update" and self.case["fmt"] == "MDMF" and self.case.get("writer_kn"):
+            ck.violation("in-place-update-encodes-with-the-writers-default-k-n-instead-of-the-files",
+                         "in-place MDMF update() by a node object whose client defaults are k=%d N=%d on a file made with k=%d "
+                         "N=%d called back (version #%d acknowledged for share numbers %s); a fresh client that sees the "
+                         "acknowledging servers %s" % (self.case["writer_kn"][0], self.case["writer_kn"][1], self.case["k"],
+                                                       self.case["n"], V[1], sorted(acked),
+                                                       ("fails: " + ferr(got)) if st == "err" else "does not get the new content"), w)
+        elif (st != "ok" or got != content) and opname == "update" and self.case["scenario"] == "stale-duplicate":
+            ck.violation("in-place-update-writes-into-a-stale-duplicate-share",
+                         "in-place MDMF update() called back with version #%d acknowledged for share numbers %s by %s, but one of "
+                         "those acknowledgements is for a copy that still held the previous version (only the changed segments "
+                         "and the new header were written into it): fewer than k valid shares of the new version exist on the "
+                         "acknowledging servers and a fresh client restricted to them %s"
+                         % (V[1], sorted(acked), sorted(ackservers),
+                            ("fails: " + ferr(got)) if st == "err" else "does not get the new content"), w)
         elif st != "ok" or got != content:
             ck.violation("published-version-not-recoverable-from-acknowledging-servers",
                          "%s succeeded (version #%d acknowledged for share numbers %s by %s) but a fresh client that sees only "
@@ -693,6 +821,16 @@ def ferr(res):
 # the oracle compares what each write answer read back on the share numbers it wrote with the versions named by that
 # request's own test vectors.  All writes go through the real allmydata.storage_client._StorageServer adapter
 # (VIServer.get_storage_server), so the conversion under test is executed.
+#
+# GENUINE, open as of /repo 940bcb8 (patches in /var/tmp/c47fix/):
+#   in-place-update-encodes-with-the-writers-default-k-n-instead-of-the-files
+#       mutable/publish.py Publish.update() takes k and N from the node (its client's defaults until it has downloaded the
+#       file) instead of the version being updated: multi-segment MDMF file, writer default k' < k, same N -> success,
+#       every share now mixes segments encoded with k and k' under a header that says k'.  fix: version[5], version[6].
+#   in-place-update-writes-into-a-stale-duplicate-share
+#       mutable/publish.py Publish.update(): goal = every share in the servermap whatever its version; a copy that still
+#       holds an older version gets the new header, hash trees and only the changed segments, and its acknowledgement
+#       counts towards k.  fix: goal = shares whose verinfo equals the version being updated.
 #
 # Repaired in /repo after this check reported it: 8204975 (SDMF update retried after an UncoordinatedWriteError dropped
 # the new data; key update-retried-after-uncoordinated-write-error-loses-the-written-data).
